@@ -205,9 +205,13 @@ DOC_TYPE_ATOMS = [
 ]
 
 
-def doc_type(rng) -> str:
+def doc_type(rng, gated: set = frozenset()) -> str:
     k = rng.choice([1, 2, 2, 3, 3, 4])
-    t = rng.choice([" | ", " | ", " or ", ", "]).join(rng.choice(DOC_TYPE_ATOMS) for _ in range(k))
+    atoms = DOC_TYPE_ATOMS
+    if "doc:default:not-a-safe-ds-literal" in gated:
+        # a set of quoted choices makes its first member the documented default, which is copied verbatim (recorded finding)
+        atoms = [a for a in atoms if not a.startswith("{'")]
+    t = rng.choice([" | ", " | ", " or ", ", "]).join(rng.choice(atoms) for _ in range(k))
     r = rng.random()
     if r < 0.1:
         t = f"list[{t}]"
